@@ -198,6 +198,15 @@ class MergeContract(Contract):
         for i, x in enumerate(held):
             out.append(('C13.message_object_holds_no_reference_into_the_running_order#%d' % i,
                         forall_nodes(1, lambda p: Imp(ex.H.mem(p, x), is_msg(p)))))
+        # object state of the running order: it must not hold on to an element that is no longer linked
+        # (e.g. a cached base tag after roReplace swapped the running-order element): later merges would edit a detached tree
+        ro_obj = cx.a['ro']
+        for fname, fv in ex.st.fields(ro_obj).items():
+            if isinstance(fv, SNode) and fname != '_xml':
+                x = fv.t
+                pq = z3.Const('p!st', Node)
+                out.append(('C01+C02+C03+C15.running_order_object_holds_no_detached_element[%s]' % fname,
+                            z3.Or(x == null, x == root, z3.Exists([pq], A(ex.H.mem(pq, x), z3.Not(is_msg(pq)))))))
         out.append(('C14.messageID_unchanged', A(ex.H.find(root, W.lit('messageID')) == cx.H.find(root, W.lit('messageID')))))
         if self.cls_name not in ('RunningOrderReplace', 'MetaDataReplace'):
             b0, b1 = cx.H.find(root, W.lit('roCreate')), ex.H.find(root, W.lit('roCreate'))
